@@ -15,7 +15,7 @@ Driver for C18.  Operations (one per line; `harness/c18.cpp` implements the same
 * `sp ty x y d`       — `make_spiral_range(pos(x,y), d)` (cap 5000)
 * `nb ty x y`         — `neumann_neighbors`, `moore_neighbors`
 * `itr kind L i j` / `adr kind L` — `iterator::make_range(begin+i, begin+j)` / `adapt_range(container)`; container element k is 3k+1
-* `mirc n`            — `math::int_range_count<n>`
+* `mirc n`            — `math::int_range_count<n>`;  `mir a b` — `math::int_range<a, b>`
 * `iit ty a b` / `iits ty a` — `int_iterator<ty>(a)`, `(b)` used directly: `== !=` (also on the same object), `*`, `it++`, member / free / self `swap`;
                         `iits`: digest over every `b` of an 8- or 16-bit type
 * `eit n w a b`       — the same for `enum_::iterator` (values `≤ n`)
@@ -389,6 +389,10 @@ def handle (toks : List String) : String :=
     match l.toNat? with
     | some l => if kind = "v" ∨ kind = "l" then adrLine l else "bad-op"
     | _ => "bad-op"
+  | ["mir", a, b] =>
+    match a.toNat?, b.toNat? with
+    | some a, some b => if a ≤ b ∧ b ≤ 16 then s!"e={if a = b then "-" else natList (mathIntRange a b)}" else "bad-op"
+    | _, _ => "bad-op"
   | ["mirc", n] =>
     match n.toNat? with
     | some n => if n ≤ 16 then s!"e={if n = 0 then "-" else natList (mathIntRangeCount n)}" else "bad-op"
